@@ -1,7 +1,6 @@
 package hx
 
 import (
-	"sync/atomic"
 	"encoding/json"
 	"fmt"
 	"net/url"
@@ -9,6 +8,7 @@ import (
 	"sort"
 	"strings"
 	"sync"
+	"sync/atomic"
 	"time"
 
 	"github.com/google/jsonschema-go/jsonschema"
@@ -39,50 +39,50 @@ type Skeleton struct {
 
 // Finding is a reproduced disagreement between the real package and the oracle.
 type Finding struct {
-	Property  string `json:"property"`
-	Kind      string `json:"kind"` // verdict-mismatch | panic | resolve-mismatch | shared-write | ...
-	Skeleton  string `json:"skeleton"`
-	Family    string `json:"family"`
-	Doc       string `json:"schema_document"`
-	BaseURI   string `json:"base_uri,omitempty"`
-	Universe  map[string]string `json:"universe,omitempty"`
-	Draft     int    `json:"default_draft"`
-	Instance  string `json:"instance_json"`
-	GoValue   string `json:"instance_go"`
-	Expected  string `json:"expected"`
-	Observed  string `json:"observed"`
-	Detail    string `json:"detail,omitempty"`
-	Class     string `json:"class,omitempty"` // known-finding class, if any
+	Property string            `json:"property"`
+	Kind     string            `json:"kind"` // verdict-mismatch | panic | resolve-mismatch | shared-write | ...
+	Skeleton string            `json:"skeleton"`
+	Family   string            `json:"family"`
+	Doc      string            `json:"schema_document"`
+	BaseURI  string            `json:"base_uri,omitempty"`
+	Universe map[string]string `json:"universe,omitempty"`
+	Draft    int               `json:"default_draft"`
+	Instance string            `json:"instance_json"`
+	GoValue  string            `json:"instance_go"`
+	Expected string            `json:"expected"`
+	Observed string            `json:"observed"`
+	Detail   string            `json:"detail,omitempty"`
+	Class    string            `json:"class,omitempty"` // known-finding class, if any
 }
 
 // SkelResult is what one skeleton's exploration established.
 type SkelResult struct {
-	Skeleton       string
-	Paths          int
-	Forks          int
-	Steps          int64
-	VerdictUnsat   int
-	VerdictSat     int
-	VerdictUnknown int
-	Validated      int // paths whose model instance was replayed natively with the same verdict
-	ValidateSkip   int
-	Inconclusive   []string
-	EngineErrors   []string
-	Findings       []Finding
-	Sample         map[string]any
-	SawNil, SawErr bool
+	Skeleton              string
+	Paths                 int
+	Forks                 int
+	Steps                 int64
+	VerdictUnsat          int
+	VerdictSat            int
+	VerdictUnknown        int
+	Validated             int // paths whose model instance was replayed natively with the same verdict
+	ValidateSkip          int
+	Inconclusive          []string
+	EngineErrors          []string
+	Findings              []Finding
+	Sample                map[string]any
+	SawNil, SawErr        bool
 	SpecSat, SpecUnsatNeg bool
-	Stats          *sx.Stats
-	Solver         smt.Stats
-	Elapsed        time.Duration
-	SkelError      string
-	Skipped        bool // not explored: the run stopped early (violations confirmed) or passed its deadline
-	SecondOpinion  int
-	ResolveRefusedParams int
-	sharedTriaged  bool
-	SharedWrites   []string
-	ResolveErrorAgreed bool // native Resolve and the oracle both say some reference designates nothing
-	ResolveRefused     bool // the package refused a schema its documentation says it may refuse
+	Stats                 *sx.Stats
+	Solver                smt.Stats
+	Elapsed               time.Duration
+	SkelError             string
+	Skipped               bool // not explored: the run stopped early (violations confirmed) or passed its deadline
+	SecondOpinion         int
+	ResolveRefusedParams  int
+	sharedTriaged         bool
+	SharedWrites          []string
+	ResolveErrorAgreed    bool // native Resolve and the oracle both say some reference designates nothing
+	ResolveRefused        bool // the package refused a schema its documentation says it may refuse
 }
 
 func expectResolve(oerr error) string {
@@ -93,11 +93,11 @@ func expectResolve(oerr error) string {
 }
 
 type VOptions struct {
-	Property      string
-	ValidatePaths bool // replay a model of every path natively (translator validation)
-	Havoc bool // C18a: non-asserting Schema fields are replaced by unconstrained symbolic values
+	Property                string
+	ValidatePaths           bool // replay a model of every path natively (translator validation)
+	Havoc                   bool // C18a: non-asserting Schema fields are replaced by unconstrained symbolic values
 	SharedWritesAreFindings bool // C13/C14: a store into shared pre-state or the instance is a violation
-	MaxFindings   int
+	MaxFindings             int
 }
 
 func loaderFor(universe map[string]string, counts map[string]int, mu *sync.Mutex) jsonschema.Loader {
@@ -307,7 +307,7 @@ func (w *Worker) RunValidateSkeleton(sk *Skeleton, opt VOptions) *SkelResult {
 		// translator validation on this path (every path at first, then a 1-in-4 sample)
 		npath++
 		if opt.ValidatePaths && (npath <= 60 || npath%4 == 0) {
-			w.validatePath(m, sk, rs, root, root2, v, res)
+			w.validatePath(m, sk, rs, root, root2, v, res, opt)
 		}
 		m.S.Push()
 		m.S.Assert(bad)
@@ -381,7 +381,7 @@ func nativeVerdict(rs *jsonschema.Resolved, inst any) (Verdict, string) {
 
 // validatePath replays a model of the path condition natively: the real compiled code
 // must produce the verdict the engine computed on this path.
-func (w *Worker) validatePath(m *sx.Machine, sk *Skeleton, rs *jsonschema.Resolved, root, root2 *sx.Node, v Verdict, res *SkelResult) {
+func (w *Worker) validatePath(m *sx.Machine, sk *Skeleton, rs *jsonschema.Resolved, root, root2 *sx.Node, v Verdict, res *SkelResult, opt VOptions) {
 	if m.S.Check() != smt.Sat {
 		res.ValidateSkip++
 		return
@@ -409,6 +409,18 @@ func (w *Worker) validatePath(m *sx.Machine, sk *Skeleton, rs *jsonschema.Resolv
 		nv, _ = nativeVerdict(rs, inst)
 	}
 	if nv != v {
+		if opt.Havoc {
+			// the path depends on the (symbolic) non-asserting fields: the undecorated native run
+			// need not follow it. If decorating the document changes the native verdict, that is
+			// the violation this harness looks for.
+			if differs, detail := decoratedVerdictDiffers(sk, inst); differs {
+				if len(res.Findings) < 3 {
+					res.Findings = append(res.Findings, Finding{Property: opt.Property, Kind: "non-asserting-keyword-changes-verdict", Skeleton: sk.Name, Family: sk.Family, Doc: sk.Doc, Draft: sk.Draft,
+						Instance: canonicalJSON(inst), GoValue: DescribeGo(inst), Expected: "same verdict with and without non-asserting / unknown keywords", Observed: detail})
+				}
+				return
+			}
+		}
 		res.EngineErrors = append(res.EngineErrors, fmt.Sprintf("path validation: engine=%s native=%s instance=%s", v, nv, DescribeGo(inst)))
 		return
 	}
